@@ -565,6 +565,23 @@ Section ElLevel.
   Qed.
 
   (* ---------- version requirement / definition entries ---------- *)
+  Lemma verneed_core_total enc (b : bytes) size no :
+    size < lenN b -> 16 <= size -> exists r, verneed_core enc (Some b) (0 :: b) size no = Ok r.
+  Proof.
+    intros B H16. unfold verneed_core.
+    destruct (ver_chain_total (0 :: b) enc b size 16 12 0 no B ltac:(lia) H16 ltac:(lia)
+                ltac:(rewrite lenN_cons; lia)) as (o & -> & Ho).
+    cbn [bind]. destruct o as [off|]; [|eauto]. specialize (Ho off eq_refl).
+    destruct (rd_word_total enc b (off + 8) 4) as (aux & ->); [cbn; lia|]. cbn [bind].
+    destruct (N.ltb_spec (size - 16) (off + aux)) as [Ha|Ha]; [eauto|].
+    destruct (rd_word_total enc b (off + 4) 4) as (file & ->); [cbn; lia|]. cbn [bind].
+    destruct (rd_word_total enc b (off + aux + 8) 4) as (name & ->); [cbn; lia|]. cbn [bind].
+    destruct (rd_word_total enc b off 2) as (v1 & ->); [cbn; lia|]. cbn [bind].
+    destruct (rd_word_total enc b (off + aux) 4) as (v2 & ->); [cbn; lia|]. cbn [bind].
+    destruct (rd_word_total enc b (off + aux + 4) 2) as (v3 & ->); [cbn; lia|]. cbn [bind].
+    destruct (rd_word_total enc b (off + aux + 6) 2) as (v4 & ->); [cbn; lia|]. cbn [bind]. eauto.
+  Qed.
+
   Theorem verneed_get_total content k el sec num no :
     loaded_ok content k el ->
     exists el1 r, verneed_get junk el sec num no = Ok (el1, r).
@@ -573,19 +590,26 @@ Section ElLevel.
     destruct (num <=? wrap32 no); [eauto|]. use_sec_data H el sec.
     destruct (s_data s1) as [b|] eqn:Ed; [|eauto]. cbn in B.
     destruct (N.ltb_spec (sh_size s1) 16) as [H16|H16]; [eauto|].
-    destruct (ver_chain_total (0 :: b) (el_enc el1) b (sh_size s1) 16 12 0 (wrap32 no) B ltac:(lia) H16 ltac:(lia)
+    destruct (verneed_core_total (el_enc el1) b (sh_size s1) (wrap32 no) B H16) as (r & ->). cbn [bind].
+    destruct r as [y|]; [|eauto].
+    destruct (lookup_str_total content k el1 (wrap32 (sh_link s1)) (vr_file y) L) as (el2 & fs & -> & L2 & _). cbn [bind].
+    destruct (lookup_str_total content k el2 (wrap32 (sh_link s1)) (vr_name y) L2) as (el3 & ds & -> & L3 & _). cbn [bind].
+    eauto.
+  Qed.
+
+  Lemma verdef_core_total enc (b : bytes) size no :
+    size < lenN b -> 20 <= size -> exists r, verdef_core enc (Some b) (0 :: b) size no = Ok r.
+  Proof.
+    intros B H20. unfold verdef_core.
+    destruct (ver_chain_total (0 :: b) enc b size 20 16 0 no B ltac:(lia) H20 ltac:(lia)
                 ltac:(rewrite lenN_cons; lia)) as (o & -> & Ho).
     cbn [bind]. destruct o as [off|]; [|eauto]. specialize (Ho off eq_refl).
-    destruct (rd_word_total (el_enc el1) b (off + 8) 4) as (aux & ->); [cbn; lia|]. cbn [bind].
-    destruct (N.ltb_spec (sh_size s1 - 16) (off + aux)) as [Ha|Ha]; [eauto|].
-    destruct (rd_word_total (el_enc el1) b (off + 4) 4) as (file & ->); [cbn; lia|]. cbn [bind].
-    destruct (rd_word_total (el_enc el1) b (off + aux + 8) 4) as (name & ->); [cbn; lia|]. cbn [bind].
-    destruct (lookup_str_total content k el1 (wrap32 (sh_link s1)) file L) as (el2 & fs & -> & L2 & _). cbn [bind].
-    destruct (lookup_str_total content k el2 (wrap32 (sh_link s1)) name L2) as (el3 & ds & -> & L3 & _). cbn [bind].
-    destruct (rd_word_total (el_enc el1) b off 2) as (v1 & ->); [cbn; lia|]. cbn [bind].
-    destruct (rd_word_total (el_enc el1) b (off + aux) 4) as (v2 & ->); [cbn; lia|]. cbn [bind].
-    destruct (rd_word_total (el_enc el1) b (off + aux + 4) 2) as (v3 & ->); [cbn; lia|]. cbn [bind].
-    destruct (rd_word_total (el_enc el1) b (off + aux + 6) 2) as (v4 & ->); [cbn; lia|]. cbn [bind]. eauto.
+    destruct (rd_word_total enc b (off + 12) 4) as (aux & ->); [cbn; lia|]. cbn [bind].
+    destruct (N.ltb_spec (size - 8) (off + aux)) as [Ha|Ha]; [eauto|].
+    destruct (rd_word_total enc b (off + aux) 4) as (name & ->); [cbn; lia|]. cbn [bind].
+    destruct (rd_word_total enc b (off + 2) 2) as (v1 & ->); [cbn; lia|]. cbn [bind].
+    destruct (rd_word_total enc b (off + 4) 2) as (v2 & ->); [cbn; lia|]. cbn [bind].
+    destruct (rd_word_total enc b (off + 8) 4) as (v3 & ->); [cbn; lia|]. cbn [bind]. eauto.
   Qed.
 
   Theorem verdef_get_total content k el sec num no :
@@ -596,15 +620,9 @@ Section ElLevel.
     destruct (num <=? wrap32 no); [eauto|]. use_sec_data H el sec.
     destruct (s_data s1) as [b|] eqn:Ed; [|eauto]. cbn in B.
     destruct (N.ltb_spec (sh_size s1) 20) as [H20|H20]; [eauto|].
-    destruct (ver_chain_total (0 :: b) (el_enc el1) b (sh_size s1) 20 16 0 (wrap32 no) B ltac:(lia) H20 ltac:(lia)
-                ltac:(rewrite lenN_cons; lia)) as (o & -> & Ho).
-    cbn [bind]. destruct o as [off|]; [|eauto]. specialize (Ho off eq_refl).
-    destruct (rd_word_total (el_enc el1) b (off + 12) 4) as (aux & ->); [cbn; lia|]. cbn [bind].
-    destruct (N.ltb_spec (sh_size s1 - 8) (off + aux)) as [Ha|Ha]; [eauto|].
-    destruct (rd_word_total (el_enc el1) b (off + aux) 4) as (name & ->); [cbn; lia|]. cbn [bind].
-    destruct (lookup_str_total content k el1 (wrap32 (sh_link s1)) name L) as (el2 & ds & -> & L2 & _). cbn [bind].
-    destruct (rd_word_total (el_enc el1) b (off + 2) 2) as (v1 & ->); [cbn; lia|]. cbn [bind].
-    destruct (rd_word_total (el_enc el1) b (off + 4) 2) as (v2 & ->); [cbn; lia|]. cbn [bind].
-    destruct (rd_word_total (el_enc el1) b (off + 8) 4) as (v3 & ->); [cbn; lia|]. cbn [bind]. eauto.
+    destruct (verdef_core_total (el_enc el1) b (sh_size s1) (wrap32 no) B H20) as (r & ->). cbn [bind].
+    destruct r as [y|]; [|eauto].
+    destruct (lookup_str_total content k el1 (wrap32 (sh_link s1)) (dr_name y) L) as (el2 & ds & -> & L2 & _). cbn [bind].
+    eauto.
   Qed.
 End ElLevel.
